@@ -81,11 +81,12 @@ class TypeHole:
         self.alen = z3.BitVec(f'{name}_len', 32)
         self.adyn = z3.Bool(f'{name}_runtime')
         self.base = z3.BitVec(f'{name}_base', 32)
+        self.stride = z3.BitVec(f'{name}_stride', 32)      # computed by naga's front end; the generator has no business reading it
         self.bases = list(array_bases)           # [(handle, semantic-or-hole, wgsl spelling)]
         self.allow_dynamic = allow_dynamic
 
     def vars(self):
-        return [self.tdisc, self.kind, self.width, self.vsize, self.cols, self.rows, self.alen, self.adyn, self.base]
+        return [self.tdisc, self.kind, self.width, self.vsize, self.cols, self.rows, self.alen, self.adyn, self.base, self.stride]
 
     def inner(self, ctx):
         c = ctx.S.conv
@@ -94,13 +95,14 @@ class TypeHole:
         return c.sym_enum('TypeInner', self.tdisc, {
             'Scalar': [sc()], 'Atomic': [sc()], 'Vector': [Agg('VectorSize', [], disc=self.vsize), sc()],
             'Matrix': [Agg('VectorSize', [], disc=self.cols), Agg('VectorSize', [], disc=self.rows), sc()],
-            'Array': [self.base, size, 0]})
+            'Array': [self.base, size, self.stride]})
 
     def assumption(self, wgsl_expressible=True):
         TI, SK = self.TI, self.SK
         vs = lambda t: z3.Or(t == 2, t == 3, t == 4)
         kinds = ['Scalar', 'Atomic', 'Vector', 'Matrix'] + (['Array'] if self.bases else [])
-        a = [z3.Or([self.tdisc == TI[k] for k in kinds]), vs(self.vsize), vs(self.cols), vs(self.rows), self.alen != 0]
+        a = [z3.Or([self.tdisc == TI[k] for k in kinds]), vs(self.vsize), vs(self.cols), vs(self.rows), self.alen != 0,
+             z3.UGE(self.stride, 4), z3.ULE(self.stride, 1 << 20), self.stride % 4 == 0]
         if self.bases:
             a.append(z3.Or([self.base == h for h, _, _ in self.bases]))
         if not self.allow_dynamic:
